@@ -24,10 +24,10 @@ PROPERTIES = {
         claim='Unbounded proof, for the functions under contract only: every jump emitted by if_helper/goto_helper/switch_helper has exactly the narrow / wide / inverted-if+goto_w byte shape with the offset that lands on the label, '
               'the narrow form is chosen iff the offset fits i16, unresolved jumps reserve a slot whose recorded patch position and base are exact, put_i16_at/put_i32_at patch big-endian and touch nothing else, '
               'alignment pads with <4 zero bytes, checked usize->uN length writers; every attribute is emitted as name index, exact attribute_length and that many bytes, attributes_count equals the attributes written (wattrs); '
-              'the bodies of InnerClasses, NestMembers, PermittedSubclasses, ModulePackages, Exceptions, MethodParameters, LineNumberTable, BootstrapMethods and the exception table of Code carry a count of the JVMS width equal to the number of entries, '
+              'every attribute block emits exactly the facts of its kind the tree holds (emitted-iff clauses of wattrs); the bodies of InnerClasses, NestMembers, PermittedSubclasses, ModulePackages, Exceptions, MethodParameters, LineNumberTable, LocalVariableTable, LocalVariableTypeTable, BootstrapMethods and the exception table of Code carry a count of the JVMS width equal to the number of entries, '
               'entries in JVMS layout, every reference through the index the pool hands out for that operand (warms); annotations, type annotation targets and paths are the JVMS encoding of the tree (wannot, wtypes); '
               'PoolWrite::put de-duplicates and accounts slots, from_* build the entry kinds JVMS 4.4 prescribes (wput, wfrom, wpool). '
-              'Partial: the retry loop of write_code, LocalVariableTable / LocalVariableTypeTable / Record / Module bodies and the StackMapTable (dropped: known finding) are not under contract.',
+              'Partial: the retry loop of write_code, Record / Module bodies and the StackMapTable (dropped: known finding) are not under contract.',
         note='Trusted: Verus+Z3; extraction rewrites; Vec<u8> sink model (write_all appends, never fails); to_be_bytes stubs; obeys_key_model::<Label>(); ordered LabelRange precondition.',
         out=['write_code retry loop as a whole (fixpoint of the label table)', 'duke/src/simple_class_writer/pool.rs PoolEntry::from_* converters and put_bootstrap_method', 'write_module, write_type_reference_code (closures)']),
     'C04': dict(
